@@ -22,6 +22,10 @@ Theorem not_entitled_refused : forall cf rq u,
   handle cf rq = Status 403 \/ (rq_ep rq = EpSign /\ handle cf rq = Status 400 /\ (rq_key rq = 0 \/ rq_has_filename rq = false)).
 Proof. exact C04.Proofs.not_entitled_refused. Qed.
 
+(* ... and in the source, key resolution and the entitlement check come before the first token access *)
+Theorem authz_precedes_token : sign_call_order = [0; 1; 2; 3; 4; 5; 6; 7; 8; 9].
+Proof. exact C04.Proofs.sign_order. Qed.
+
 (* malformed configuration entries (unknown name, dangling alias, entry without token) yield an error, not a panic *)
 Theorem get_key_total : forall ks n, (exists e, get_key ks n = Err e) \/ (exists r, get_key ks n = Ok r).
 Proof. exact C04.Proofs.get_key_total. Qed.
